@@ -223,6 +223,10 @@ RETCODE adfUndelDir ( struct AdfVolume * vol,
         return RC_ERROR;
     if (isDIRCACHE(vol->dosType) && !adfIsBlockFree(vol,entry->extension))
         return RC_ERROR;
+    /* with a directory cache a third block may be needed (the directory, its cache block, a new
+       cache block of the parent): refuse before anything is linked */
+    if ( isDIRCACHE ( vol->dosType ) && ! adfHasFreeBlocks ( vol, 3 ) )
+        return RC_VOLFULL;
 
     rc = adfReadEntryBlock ( vol, pSect, &parent );
     if ( rc != RC_OK )
@@ -302,6 +306,13 @@ RETCODE adfUndelFile ( struct AdfVolume *        vol,
         if ( ! adfIsBlockFree ( vol, fileBlocks.extens[nExt] ) )
             goto adfUndelFile_giveback;
         adfSetBlockUsed ( vol, fileBlocks.extens[nExt] );
+    }
+
+    /* with a directory cache one more block may be needed for a new cache block of the parent:
+       refuse before the file is linked */
+    if ( isDIRCACHE ( vol->dosType ) && ! adfHasFreeBlocks ( vol, 1 ) ) {
+        rc = RC_VOLFULL;
+        goto adfUndelFile_giveback;
     }
 
     rc = adfReadEntryBlock ( vol, pSect, &parent );
